@@ -11,7 +11,10 @@ executed on PixelAperture.to_mask / .bbox / .area, compared with mcphot/ref/geom
 (polygon∩disk line integral; counted sub-pixel centres with an ambiguity interval; rational
 minimal-box rule), on ALL HISTORIES of public calls up to a depth on one aperture object (to_mask / area_overlap /
 do_photometry with and without a pixel mask, every ApertureMask method on the masks handed out, writes into returned
-arrays, copies, children, ApertureStats, positions re-assignment: afterwards every read must be that of a fresh aperture),
+arrays, copies, children, ApertureStats, and every way of changing a parameter of the object itself -- positions assigned anew,
+``positions += d``, the stored positions array written by the caller and assigned again, the caller's own array changed and
+assigned again, assignments of equal values, ``r *= f``, ``theta += dq`` in place on the stored Quantity: afterwards every read
+must be that of a fresh aperture with the current values),
 and -- always exhaustive -- all small integer boxes x all small image shapes for
 get_overlap_slices / to_image / cutout, all pairs of small boxes for union / intersection and a
 product of pixel-edge-hugging floats for BoundingBox.from_float.
@@ -38,16 +41,21 @@ RULE = ('full Cartesian product per shape family: size x axis-ratio x angle x an
         'against the reference evaluated at the radian value like any other case, with the Angle of the same number and unit bit-identical. '
         'A representation case is non-trivial when the angle is not 0. '
         'A mask case is non-trivial when its data contain a weight strictly between 0 and 1 (exact / subpixel) or at '
-        'least one pixel equal to 1 (center); a bounding-box case and a parameter re-assignment case (consecutive shapes of a unit, size <= 30: every read -- bbox, area, to_mask exact / center / subpixel -- fills the caches, then every parameter and the positions are assigned ONE AT A TIME, positions first or last, and after every single assignment that leaves a valid aperture every read is compared with a fresh aperture of the same parameters; the representation of theta before x the representation assigned x the order run through their full 6 x 6 x 2 product over 72 consecutive shapes) always; an overlap case when box and image '
+        'least one pixel equal to 1 (center); a bounding-box case and a parameter re-assignment case (consecutive shapes of a unit, size <= 30: every read -- bbox, area, to_mask exact / center / subpixel -- fills the caches, then every parameter and the positions are assigned ONE AT A TIME, positions first or last, and after every single assignment that leaves a valid aperture every read is compared with a fresh aperture of the same parameters; the representation of theta before x the representation assigned x the order x the way the positions are changed {a new list, a new ndarray, augmented assignment positions += (dx, dy) = in place on the stored array which is then handed to the setter, a = ap.positions; a[0] = (x, y); ap.positions = a} run through their full 6 x 6 x 2 x 4 product over 288 consecutive shapes (families without an angle: 2 x 4 over 8); the first read that differs is reported per assignment) always; an overlap case when box and image '
         'partially overlap (neither disjoint nor box inside image); cases are distinct product indices. '
         'Histories: for 6 families x 2 shapes x 3 forms (scalar inside the image, scalar cut by two image edges, list of three positions '
         'inside / cut / off the image) EVERY sequence of operations up to depth 2 (quick; depth 3 for the first shape of every family in list '
         'form; thorough: depth 3 everywhere) from the alphabet {to_mask, area_overlap without / with pixel mask, do_photometry without / with '
         'pixel mask} x {exact, center, subpixel 2} (thorough, depth 2: + subpixel 1, subpixel 5, aperture_photometry) + {ApertureMask.multiply, '
-        'cutout, get_values, to_image on the masks last handed out, caller writes into the handed-out mask, positions re-assignment, '
+        'cutout, get_values, to_image on the masks last handed out, caller writes into the handed-out mask, every way of changing a parameter of '
+        'the aperture itself [positions assigned as new tuples; positions += d (in place on the stored array, then the setter receives that very '
+        'array); a = ap.positions, a[0] = v, ap.positions = a; the caller\'s own ndarray assigned, a read, that array changed by the caller and the '
+        'identical object assigned again; assignments that change nothing (the stored object itself / an equal array / equal tuples); r *= f resp. '
+        '/= f on the first size parameter; theta += dq in place on the stored Quantity (families with an angle)], '
         'copy-and-modify-the-copy, children ap[0] / ap[1:] / iteration (list form), ApertureStats} is executed on one fresh aperture; every '
         'array returned by a call is overwritten by the caller (unless it is a view of the caller\'s own data or read-only); after the '
-        'history bbox, area and to_mask of every method must equal those of a freshly built aperture (bit-identical), every to_mask inside '
+        'history bbox, area and to_mask of every method must equal those of a freshly built aperture with the CURRENT positions and parameter values '
+        '(tracked by a model of the history with the same float arithmetic on its own objects, never read back from the aperture) (bit-identical), every to_mask inside '
         'the history likewise, and no mask handed out earlier may have changed. A history case is non-trivial when it contains an operation '
         'other than to_mask; only the shortest failing history is reported (prefixes are enumerated as well).')
 ASSUMPTIONS = [
@@ -58,6 +66,9 @@ ASSUMPTIONS = [
     'astropy.units / astropy.coordinates.Angle construct the angle objects; the radian value of an angle given in degrees / arcmin is '
     'math.radians(deg) (the reference tolerances absorb a few ulp of difference to the conversion the implementation uses)',
     'sizes are bounded by 25 px (quick) / 300 px (thorough); parameters between alphabet points are outside the bound',
+    'histories: augmented assignment on an attribute is Python\'s get / in-place operator / set; numpy and astropy.units in-place addition give the '
+    'same float as the out-of-place addition the model of the history uses; a caller who writes into the array returned by ap.positions WITHOUT '
+    'assigning it afterwards is outside the bound (no setter is involved)',
     'histories: the fresh aperture the reads are compared with is itself judged against the reference by the mask / bbox cases; state kept '
     'outside the aperture object and the masks it returned (module level) is only seen through the operations of the alphabet; histories '
     'longer than the stated depth and operations outside the alphabet (plotting, to_sky) are outside the bound',
@@ -550,7 +561,15 @@ def _reads(ap):
     return out
 
 
-def check_reassign(acc, family, p1, pos1, p2, pos2, positions_first=False):
+# how the positions are changed in a re-assignment case ('list': a new list of other values; 'ndarray': a new array of other
+# values; '+=': augmented assignment ``ap.positions += (dx, dy)`` -- the stored array is changed in place and then handed to
+# the setter; 'write+assign': ``a = ap.positions; a[0] = (x, y); ap.positions = a`` -- the caller writes into the stored
+# array and assigns that very object).  For the last two the new positions are computed by the same numpy arithmetic on the
+# check's own copy.
+POS_IDIOMS = ['list', 'ndarray', '+=', 'write+assign']
+
+
+def check_reassign(acc, family, p1, pos1, p2, pos2, positions_first=False, idiom='list'):
     """The cached state of an aperture (lazy bbox / centred edges / area, anything memoised by to_mask) must follow
     parameter re-assignment: build (p1, pos1), perform every read (bbox, area, to_mask with every method: fills the
     caches), then assign the parameters of p2 and the positions pos2 ONE AT A TIME; after every single assignment
@@ -559,9 +578,10 @@ def check_reassign(acc, family, p1, pos1, p2, pos2, positions_first=False):
     fresh object itself is judged against the reference by the mask / bbox cases).  p1 / p2 carry the representation
     of theta ('trep'): the setter receives the same object a constructor would."""
     case = {'what': 'reassign', 'family': family, 'params_before': p1, 'positions_before': pos1, 'params': p2, 'positions': pos2,
-            'positions_first': bool(positions_first)}
+            'positions_first': bool(positions_first), 'positions_idiom': idiom}
     acc.case(nontrivial=True, sample=case if acc.counters['reassign_cases'] % 997 == 1 else None)
     acc.counters['reassign_cases'] += 1
+    acc.counters[f'reassign_cases_positions_{idiom}'] += 1
     skip = ('trep', 'tval')
     try:
         fresh1, fresh2 = build(family, p1, pos1), build(family, p2, pos2)
@@ -575,8 +595,23 @@ def check_reassign(acc, family, p1, pos1, p2, pos2, positions_first=False):
         order = (['positions'] + names) if positions_first else (names + ['positions'])
         for step, nm in enumerate(order):
             if nm == 'positions':
-                cur_pos = pos2
-                ap.positions = pos2
+                if idiom == 'list':
+                    cur_pos = pos2
+                    ap.positions = pos2
+                elif idiom == 'ndarray':
+                    cur_pos = pos2
+                    ap.positions = np.array(pos2)
+                elif idiom == '+=':
+                    d = (pos2[0][0] - pos1[0][0], pos2[0][1] - pos1[0][1])
+                    cur_pos = (np.array(pos1, dtype=float) + np.array(d)).tolist()
+                    ap.positions += d
+                elif idiom == 'write+assign':
+                    cur_pos = [list(pos2[0])] + [list(q) for q in pos1[1:]]
+                    a = ap.positions
+                    a[0] = pos2[0]
+                    ap.positions = a
+                else:
+                    raise ValueError(idiom)
             else:
                 cur[nm] = getattr(fresh2, nm) if p2[nm] is None else p2[nm]
                 if nm == 'theta':
@@ -599,12 +634,16 @@ def check_reassign(acc, family, p1, pos1, p2, pos2, positions_first=False):
                 continue
             acc.counters['reassign_steps_judged'] += 1
             got = _reads(ap)
-            for what in want:
-                if got[what] != want[what]:
-                    acc.violation('stale-cache', f'{family}:{what}:after-{nm}', dict(case, step=step),
-                                  'differs from a fresh aperture' if 'mask' in what else got[what],
-                                  'same as fresh aperture' if 'mask' in what else want[what],
-                                  f'after assigning {order[:step + 1]} (last: {nm}); parameters now {cur}')
+            # one report per assignment: the first read that differs (bbox, area, then the masks, which are built from
+            # the box); the others are named in the detail
+            differ = [what for what in want if got[what] != want[what]]
+            for what in differ[:1]:
+                tag = nm if (nm != 'positions' or idiom == 'list') else f'positions:{idiom}'
+                acc.violation('stale-cache', f'{family}:{what}:after-{tag}', dict(case, step=step),
+                              'differs from a fresh aperture' if 'mask' in what else got[what],
+                              'same as fresh aperture' if 'mask' in what else want[what],
+                              f'after assigning {order[:step + 1]} (last: {nm}, positions changed by {idiom!r}); parameters now {cur}, '
+                              f'positions {cur_pos}; reads that differ: {differ}')
     except Exception as e:
         acc.violation('raises', f'{family}:reassign:{type(e).__name__}', case, repr(e), 'no exception')
 
@@ -756,16 +795,37 @@ def hist_shape(family, k):
     return with_rep(p, 'Quantity[deg]') if (k == 1 and 'theta' in p) else dict(p)
 
 
-def hist_ops(form, tag):
-    """the operation alphabet of the history block (JSON lists, simplest first)"""
+# ways of changing a parameter of the aperture object itself (every one of them goes through the attribute's setter in the
+# end; they differ in WHAT the setter is handed relative to what the aperture already stores):
+#   set_positions        a new container (tuples) with other values
+#   positions+=          augmented assignment: the STORED array is changed in place, then the setter receives that very array
+#   positions[0]=        a = ap.positions; a[0] = ...; ap.positions = a  (stored array written by the caller, then re-assigned)
+#   positions=own-array  the caller's own ndarray is assigned, a read follows, the caller changes ITS array and assigns the
+#                        identical object again
+#   positions=equal      assignments that change nothing (the stored object itself, an equal array, equal tuples)
+#   param*=              augmented assignment of the first size parameter (an immutable float: new value through the setter)
+#   theta+=              augmented assignment of the angle: the STORED Quantity is changed in place, then re-assigned
+HIST_PARAM_OPS = [['set_positions'], ['positions+='], ['positions[0]='], ['positions=own-array'], ['positions=equal'], ['param*=']]
+HIST_THETA_OPS = [['theta+=']]
+HIST_SHIFT2 = 0.75                  # 'positions[0]=' adds / subtracts this to the first row (list form) / to x (scalar forms)
+HIST_FACTOR = 1.25                  # 'param*=' multiplies / divides the first size parameter by this
+HIST_DTHETA = {'rad': 0.25, 'deg': 15.0, 'arcmin': 900.0}      # 'theta+=' adds / subtracts this, in the unit the angle is stored in
+
+
+def hist_ops(form, tag, family=None):
+    """the operation alphabet of the history block (JSON lists, simplest first); ``family`` decides whether the angle
+    operation exists (None: a family with an angle)"""
     ops = []
     for m, s in HIST_METHODS[tag]:
         ops.append(['to_mask', m, s])
     for m, s in HIST_METHODS[tag]:
         ops += [['area_overlap', m, s, 'nomask'], ['area_overlap', m, s, 'mask'],
                 ['do_photometry', m, s, 'nomask'], ['do_photometry', m, s, 'mask']]
-    ops += [['mask.multiply'], ['mask.cutout'], ['mask.get_values'], ['mask.to_image'], ['mask.write'],
-            ['set_positions'], ['copy.modify']]
+    ops += [['mask.multiply'], ['mask.cutout'], ['mask.get_values'], ['mask.to_image'], ['mask.write']]
+    ops += [list(o) for o in HIST_PARAM_OPS]
+    if family is None or family in THETA_FAMILIES:
+        ops += [list(o) for o in HIST_THETA_OPS]
+    ops += [['copy.modify']]
     if form == 'list':
         ops.append(['children'])
     ops.append(['ApertureStats'])
@@ -830,13 +890,72 @@ class _HistSkip(Exception):
     pass
 
 
+def _vkey(v):
+    return (float(v.value).hex(), str(v.unit)) if hasattr(v, 'unit') else float(v).hex()
+
+
+class _HModel:
+    """What the author of a history knows about the aperture: the positions and parameter values it was built with and
+    every change made since, computed with the same numpy / float / Quantity arithmetic on the model's OWN objects (never
+    read back from the aperture under test).  ``fresh()`` builds a new aperture with these values."""
+
+    def __init__(self, family, form, cfg):
+        self.family, self.form, self.cfg = family, form, cfg
+        self.base = 0                                   # which of the two position sets 'set_positions' assigned last
+        self.pos = np.array(cfg['pos'][0], dtype=float)
+        self.over = {}                                  # parameters changed since construction (all resolved then)
+        self.count = {}                                 # how often an operation ran (alternating sign / factor)
+        self.resolved = False
+
+    def turn(self, name):
+        """+1 for the 1st, 3rd, ... application of an operation, -1 for the 2nd, 4th, ..."""
+        n = self.count.get(name, 0)
+        self.count[name] = n + 1
+        return 1 if n % 2 == 0 else -1
+
+    def key(self):
+        return (self.pos.tobytes(), tuple(sorted((k, _vkey(v)) for k, v in self.over.items())))
+
+    def params(self):
+        p = self.cfg['p']
+        if not self.over:
+            return p
+        p = {k: v for k, v in p.items() if k not in ('trep', 'tval') or 'theta' not in self.over}
+        p.update({k: (v.copy() if hasattr(v, 'unit') else v) for k, v in self.over.items()})
+        return p
+
+    def fresh(self):
+        return build(self.family, self.params(), _hpos(self.pos.tolist(), self.form))
+
+    def value(self, name):
+        """current value of a parameter (derived defaults -- b_in / h_in given as None -- are resolved on a fresh aperture
+        of the construction parameters and from then on carried explicitly, as the aperture object does)"""
+        if name not in self.over:
+            v = self.cfg['p'][name]
+            if name == 'theta':
+                import astropy.units as u
+                v = theta_arg(self.cfg['p'])
+                return v.copy() if isinstance(v, u.Quantity) else u.Quantity(float(v), 'rad')
+            return float(v)
+        return self.over[name]
+
+    def assign(self, name, value):
+        if not self.resolved:
+            self.resolved = True
+            f0 = build(self.family, self.cfg['p'], _hpos(self.cfg['pos'][0], self.form))
+            for k, v in self.cfg['p'].items():
+                if v is None:
+                    self.over[k] = float(getattr(f0, k))
+        self.over[name] = value
+
+
 def _hist_run(family, form, cfg, hist, methods, want):
     """Execute the history on ONE fresh aperture object.  -> list of (clause, readkind, observed, expected, detail).
-    ``want(state)`` = reads of a freshly constructed aperture at position set ``state``."""
+    ``want(state)`` = reads of a freshly constructed aperture with the positions / parameter values of the model ``state``."""
     data, error, bad = cfg['data'].copy(), cfg['error'].copy(), cfg['bad'].copy()
     inputs = (data, error, bad)
     p = cfg['p']
-    state = 0
+    state = _HModel(family, form, cfg)
     ap = build(family, p, _hpos(cfg['pos'][0], form))
     held = []                       # [masks, bytes of their data when they were returned (or last written by us)]
     mism = []
@@ -885,14 +1004,52 @@ def _hist_run(family, form, cfg, hist, methods, want):
                 m_.data[...] = 0.0
             held[-1][1] = [m_.data.tobytes() for m_ in mk]
         elif nm == 'set_positions':
-            state = 1 - state
-            ap.positions = _hpos(cfg['pos'][state], form)
+            state.base = 1 - state.base
+            state.pos = np.array(cfg['pos'][state.base], dtype=float)
+            ap.positions = _hpos(cfg['pos'][state.base], form)
+        elif nm == 'positions+=':
+            d = tuple(state.turn(nm) * v for v in HIST_SHIFT)
+            ap.positions += d                           # in place on the stored array, then the setter gets that array
+            state.pos = state.pos + np.array(d)
+        elif nm == 'positions[0]=':
+            e = state.turn(nm) * HIST_SHIFT2
+            a = ap.positions
+            a[0] = a[0] + e                             # the caller writes into the array the aperture handed out ...
+            ap.positions = a                            # ... and assigns it
+            state.pos = state.pos.copy()
+            state.pos[0] = state.pos[0] + e
+        elif nm == 'positions=own-array':
+            d = np.array([state.turn(nm) * v for v in HIST_SHIFT])
+            arr = state.pos.copy()                      # the caller's own array
+            ap.positions = arr
+            _aslist(ap.bbox)                            # (any read)
+            arr += d                                    # the caller changes its array ...
+            ap.positions = arr                          # ... and assigns the identical object again
+            state.pos = state.pos + d
+        elif nm == 'positions=equal':
+            ap.positions = ap.positions                 # the stored object itself, unchanged
+            ap.positions = state.pos.copy()             # an equal array
+            ap.positions = _hpos(state.pos.tolist(), form)      # equal tuples
+        elif nm == 'param*=':
+            g = HIST_GROW[family]
+            if state.turn(nm) > 0:
+                setattr(ap, g, getattr(ap, g) * HIST_FACTOR)    # ap.r *= 1.25
+                state.assign(g, state.value(g) * HIST_FACTOR)
+            else:
+                setattr(ap, g, getattr(ap, g) / HIST_FACTOR)    # ap.r /= 1.25
+                state.assign(g, state.value(g) / HIST_FACTOR)
+        elif nm == 'theta+=':
+            import astropy.units as u
+            q = state.value('theta')
+            dq = u.Quantity(state.turn(nm) * HIST_DTHETA[str(q.unit)], q.unit)
+            ap.theta += dq                              # in place on the stored Quantity, then the setter gets that object
+            state.assign('theta', q + dq)
         elif nm == 'copy.modify':
             c = ap.copy()
             c.area_overlap(data, mask=bad, method='exact')
             for m_ in _aslist(c.to_mask(method='center')):
                 _scribble(m_.data, inputs)
-            c.positions = _hpos(cfg['pos'][1 - state], form)
+            c.positions = _hpos(cfg['pos'][1 - state.base], form)
             setattr(c, HIST_GROW[family], getattr(c, HIST_GROW[family]) * 1.25)
             c.do_photometry(data, mask=bad, method='subpixel', subpixels=2)
             for m_ in _aslist(c.to_mask(method='exact')):
@@ -951,9 +1108,10 @@ def check_history(acc, family, k, form, tag, hist, seed, cfg=None, want=None):
         memo = {}
 
         def want(state):
-            if state not in memo:
-                memo[state] = _hreads(build(family, cfg['p'], _hpos(cfg['pos'][state], form)), methods)
-            return memo[state]
+            k = state.key()
+            if k not in memo:
+                memo[k] = _hreads(state.fresh(), methods)
+            return memo[k]
     case = {'what': 'history', 'family': family, 'hshape': k, 'form': form, 'methods': tag, 'history': [list(op) for op in hist],
             'params': cfg['p'], 'positions': cfg['pos'][0]}
     last = _opkind(hist[-1])
@@ -967,7 +1125,7 @@ def check_history(acc, family, k, form, tag, hist, seed, cfg=None, want=None):
     acc.case(nontrivial=any(op[0] != 'to_mask' for op in hist), sample=case if acc.counters['history_cases'] % 1009 == 3 else None)
     acc.counters['history_cases'] += 1
     if acc.counters['history_cases'] % 211 == 0:
-        acc.outcome(hashlib.blake2b(repr(sorted(want(0).items())).encode() + bytes([len(hist)]), digest_size=8).hexdigest())
+        acc.outcome(hashlib.blake2b(repr(sorted(want(_HModel(family, form, cfg)).items())).encode() + bytes([len(hist)]), digest_size=8).hexdigest())
     if not mism:
         return
     if len(hist) > 1:
@@ -994,9 +1152,10 @@ def run_history_unit(acc, unit, seed):
     memo = {}
 
     def want(state):
-        if state not in memo:
-            memo[state] = _hreads(build(family, cfg['p'], _hpos(cfg['pos'][state], form)), methods)
-        return memo[state]
+        k = state.key()
+        if k not in memo:
+            memo[k] = _hreads(state.fresh(), methods)
+        return memo[k]
     # non-triviality of the configuration, measured: the pixel mask handed to the masked operations is True on a pixel
     # that carries weight in the fresh exact mask of the first position
     try:
@@ -1009,7 +1168,7 @@ def run_history_unit(acc, unit, seed):
         acc.violation('raises', f'{family}:history-config:{type(e).__name__}', {'what': 'history', 'family': family, 'hshape': k, 'form': form,
                                                                                 'methods': tag, 'history': [['to_mask', 'exact', 5]]}, repr(e), 'no exception')
         return
-    ops = hist_ops(form, tag)
+    ops = hist_ops(form, tag, family)
     firsts = ops if unit.get('first') is None else [ops[unit['first']]]
     for n in range(1, depth + 1):
         for f in firsts:
@@ -1183,7 +1342,7 @@ def history_units(tier):
                 if tier == 'thorough':
                     units.append(dict(base, methods='T', depth=2, first=None))
                 if deep:
-                    for i in range(len(hist_ops(form, 'Q'))):
+                    for i in range(len(hist_ops(form, 'Q', fam))):
                         units.append(dict(base, methods='Q', depth=3, first=i))
                 else:
                     units.append(dict(base, methods='Q', depth=2, first=None))
@@ -1243,7 +1402,10 @@ def run_unit(unit, tier, seed):
                     # (order, representation assigned, representation before): full product over 72 consecutive shapes
                     p1 = with_rep(p1, REASSIGN_REPS[(k // 12) % len(REASSIGN_REPS)])
                     p2 = with_rep(p2, REASSIGN_REPS[(k // 2) % len(REASSIGN_REPS)])
-                check_reassign(acc, fam, p1, prev[1], p2, groups[-1], positions_first=bool(k % 2))
+                # (the way the positions are changed is the slowest axis of the rotation: 6 x 6 x 2 x 4 over 288 consecutive
+                # shapes; families without an angle: 2 x 4 over 8)
+                idiom = POS_IDIOMS[((k // 72) if fam in THETA_FAMILIES else (k // 2)) % len(POS_IDIOMS)]
+                check_reassign(acc, fam, p1, prev[1], p2, groups[-1], positions_first=bool(k % 2), idiom=idiom)
             prev = (p, groups[0])
     elif kind == 'history':
         run_history_unit(acc, unit, seed)
@@ -1289,7 +1451,7 @@ def replay(case, seed):
         check_history(acc, case['family'], case['hshape'], case['form'], case['methods'], case['history'], seed)
     elif what == 'reassign':
         check_reassign(acc, case['family'], case['params_before'], case['positions_before'], case['params'], case['positions'],
-                       positions_first=case.get('positions_first', False))
+                       positions_first=case.get('positions_first', False), idiom=case.get('positions_idiom', 'list'))
     else:
         fam, p, positions = case['family'], case['params'], case['positions']
         method, s = case.get('method', 'center'), case.get('subpixels', 5)
@@ -1325,7 +1487,11 @@ def describe(tier, seed):
                                   'bit-identical to the Quantity of the same number and unit': TREPS_SAME},
         'reassign': {'reads_before_and_after_every_assignment': ['bbox', 'area'] + [f'to_mask:{m}({k})' for m, k in REASSIGN_METHODS],
                      'theta_representations_before_x_assigned': REASSIGN_REPS, 'orders': ['parameters then positions', 'positions then parameters'],
-                     'rule': 'consecutive shapes of a unit with size <= 30; judged after every single assignment that leaves a valid aperture'},
+                     'positions_changed_by': {'list': 'ap.positions = new list', 'ndarray': 'ap.positions = new ndarray',
+                                              '+=': 'ap.positions += (dx, dy) (in place on the stored array, which the setter then receives)',
+                                              'write+assign': 'a = ap.positions; a[0] = (x, y); ap.positions = a'},
+                     'rule': 'consecutive shapes of a unit with size <= 30; judged after every single assignment that leaves a valid aperture; '
+                             'order x theta representation assigned x before x positions idiom = mixed-radix digits of the shape index (2 x 6 x 6 x 4)'},
         'annulus_ratios': RATIOS + ['0.5 with explicit b_in/h_in = 0.9 b_out/h_out'],
         'methods': [list(m) for m in (METHODS_T if tier == 'thorough' else METHODS_Q)],
         'methods_circle_families': [list(m) for m in METHODS_T],
@@ -1343,7 +1509,7 @@ def describe_history(tier, seed):
     us = history_units(tier)
 
     def nhist(u):
-        n = len(hist_ops(u['form'], u['methods']))
+        n = len(hist_ops(u['form'], u['methods'], u['family']))
         tot = sum(n ** d for d in range(1, u['depth'] + 1))
         return tot if u['first'] is None else tot // n
     cfg = hist_config('circle', 0, 'list', seed)
@@ -1353,13 +1519,24 @@ def describe_history(tier, seed):
                 'every mask handed out during the history must be unchanged',
         'operations_list_form': {t: hist_ops('list', t) for t in sorted({u['methods'] for u in us})},
         'operations_scalar_forms': "the same without ['children']",
+        'operations_families_without_angle': "the same without ['theta+=']",
+        'alphabet_size': {fam: {form: len(hist_ops(form, 'Q', fam)) for form in HIST_FORMS} for fam in FAMILIES},
         'operation_meaning': {
             'to_mask': 'ap.to_mask(method, subpixels); the result is compared with the fresh masks and kept',
             'area_overlap / do_photometry': "ap.<op>(data[, error], mask=None | pixel mask, method, subpixels); the returned arrays are overwritten",
             'mask.*': 'on the masks most recently handed out by to_mask (none yet: ap.to_mask() with default arguments): multiply (fill 0 / nan), '
                       'cutout (view / copy with fill nan), get_values (without / with pixel mask), to_image + get_overlap_slices; returned arrays '
                       'that are not views of our data are overwritten; mask.write = mask.data[...] = 0 by the caller (skipped when read-only)',
-            'set_positions': f'ap.positions = positions shifted by {list(HIST_SHIFT)} / back (the fresh aperture follows)',
+            'set_positions': f'ap.positions = new tuples: the construction positions shifted by {list(HIST_SHIFT)} / the construction positions (the fresh aperture follows)',
+            'positions+=': f'ap.positions += {list(HIST_SHIFT)} (1st, 3rd application) / -= (2nd): in place on the stored array, then the setter receives that array',
+            'positions[0]=': f'a = ap.positions; a[0] = a[0] + {HIST_SHIFT2} (/ - {HIST_SHIFT2}); ap.positions = a  (first position of the list form, x of the scalar forms)',
+            'positions=own-array': f'arr = own ndarray of the current positions; ap.positions = arr; ap.bbox; arr += {list(HIST_SHIFT)} (/ -=); ap.positions = arr',
+            'positions=equal': 'ap.positions = ap.positions; ap.positions = an equal array; ap.positions = equal tuples (nothing changes)',
+            'param*=': f'ap.<first size parameter> *= {HIST_FACTOR} (1st, 3rd application) / /= {HIST_FACTOR} (2nd); parameter per family: {HIST_GROW}',
+            'theta+=': f'ap.theta += dq (/ -= dq), dq = {HIST_DTHETA} in the unit the angle is stored in: in place on the stored Quantity, then the setter receives it '
+                       '(families with an angle only)',
+            'model': 'positions / parameters after every operation are computed by the check on its own copies with the same arithmetic; the fresh aperture '
+                     'is built from them (derived b_in / h_in are carried explicitly once a parameter was assigned)',
             'copy.modify': 'c = ap.copy(): area_overlap with pixel mask, masks of c overwritten, positions and first size parameter of c re-assigned, do_photometry',
             'children': 'ap[0].area_overlap(pixel mask), its mask overwritten; ap[1:].do_photometry; masks of every "for a in ap" child overwritten',
             'ApertureStats / aperture_photometry': 'built on the aperture object with error and pixel mask; sum, sum_err, centroid, sum_aper_area read',
